@@ -384,3 +384,76 @@ def gen_config(seed: int, tier: str = "quick") -> Dict[str, Any]:
     sc["config"]["debug"] = False
     repair_cycles(sc, rng)
     return sc
+
+
+# ---------------------------------------------------------------------------------
+# C09: same-time loops around the max_loop_iterations bound
+def gen_loop(seed: int, tier: str = "quick") -> Dict[str, Any]:
+    rng = random.Random(sub_seed(seed, "loop"))
+    deep = rng.random() < 0.4
+    groups = [None, 0, 1] if deep else [None, 0]
+    if rng.random() < 0.3:
+        groups.append(0)                       # a sibling group
+    G = 2 if deep else 1
+    M = rng.choice([1, 2, 3, 4, 5, 6])
+    nmem = rng.choice([2, 2, 3])
+    L = rng.choice([max(0, M - 3), max(0, M - 2), max(0, M - 2), max(0, M - 1), max(0, M - 1),
+                    max(0, M - 1), M, M, M + 1, M + 2, None])
+    sims = []
+    for i in range(nmem):
+        typ = rng.choice(["hybrid", "event-based"])
+        beh = {"bseed": rng.randrange(1 << 30), "p_self": 0.0, "self_d": 1, "p_out": 1.0,
+               "loop_len": None}
+        s = {"sid": f"L{i}", "type": typ, "group": G, "n_ent": 1, "meta_style": 0,
+             "transport": pick_weighted(rng, TRANSPORT_MIXES["mixed"]), "beh": beh}
+        if i == 0:
+            beh["loop_len"] = L
+            beh["p_self"] = rng.choice([1.0, 1.0, 0.5])
+            beh["self_d"] = rng.choice([1, 1, 2])
+            if typ == "event-based":
+                s["init_event"] = 0
+        elif typ == "event-based":
+            s["init_event"] = None
+        sims.append(s)
+    conns = []
+    for i in range(nmem):
+        j = (i + 1) % nmem
+        conns.append({"src": i, "se": 0, "dst": j, "de": 0, "pairs": [["e_out", "t_in"]],
+                      "shift": 0, "weak": j == 0})
+    # hybrids on the loop step at time 0 by themselves; make their persistent output harmless
+    # extras
+    for x in range(rng.choice([0, 1, 1, 2])):
+        typ = rng.choice(TYPES)
+        g = rng.choice(list(range(len(groups))))
+        idx = len(sims)
+        s = {"sid": f"X{x}", "type": typ, "group": g, "n_ent": 1, "meta_style": 0,
+             "transport": pick_weighted(rng, TRANSPORT_MIXES["mixed"]),
+             "beh": gen_beh(rng, typ, {"future": False, "react": False})}
+        if typ == "event-based":
+            s["init_event"] = rng.choice([None, 0])
+        if typ != "time-based":
+            s["beh"]["p_self"] = rng.choice([0.0, 0.5])
+        sims.append(s)
+        m = rng.randrange(nmem)
+        if rng.random() < 0.6:
+            # consumer of a loop member
+            ua = rng.choice(OUTS[sims[m]["type"]])
+            va = rng.choice(INS[typ])
+            conns.append({"src": m, "se": 0, "dst": idx, "de": 0, "pairs": [[ua, va]], "shift": 0, "weak": False})
+        else:
+            # producer for a loop member's non-trigger input (hybrid members only) or a
+            # time-shifted trigger
+            ua = rng.choice(OUTS[typ])
+            if sims[m]["type"] == "hybrid":
+                conns.append({"src": idx, "se": 0, "dst": m, "de": 0, "pairs": [[ua, "m_in"]], "shift": 0, "weak": False})
+            else:
+                conns.append({"src": idx, "se": 0, "dst": m, "de": 0, "pairs": [[ua, "t_in"]], "shift": 1, "weak": False})
+    cfg = {"cache": rng.random() < 0.5, "lazy": rng.random() < 0.6, "debug": False, "mli": M,
+           "start_seed": rng.choice([None, rng.randrange(1 << 30)]),
+           "connect_seed": rng.choice([None, rng.randrange(1 << 30)]),
+           "order_seed": rng.choice([None, rng.randrange(1 << 30)]),
+           "iteration_cost": rng.choice([0.0, 1e-5])}
+    sc = {"groups": groups, "sims": sims, "conns": conns, "until": rng.choice([1, 2, 3, 4]),
+          "config": cfg, "loop": {"M": M, "L": L, "members": nmem, "tier": 2 if deep else 1}}
+    repair_cycles(sc, rng)
+    return sc
